@@ -3,6 +3,7 @@ NEXT Next
 CONSTANTS NMax = 150
  DMax = 24
 INVARIANT RoundLaws
+INVARIANT NativeCopy
 INVARIANT UnaryLaws
 INVARIANT BinaryLaws
 CHECK_DEADLOCK FALSE
